@@ -144,6 +144,10 @@ func c05Stream(c *sim.Ctx) (stream []byte, plans []string) {
 			// thousands of tiny list elements: where super-linear work would show
 			f, fm = ref.Encode(gen.Bulk(t, c.Thorough))
 			c.Count("probe.bulk-list-frame")
+		} else if t.Bool(1, 16) {
+			// one single-valued property repeated thousands of times
+			f, fm = ref.Encode(gen.BulkDup(t, c.Thorough))
+			c.Count("probe.bulk-repeated-single-valued-property")
 		} else {
 			f, fm = ref.Encode(gen.Packet(t, cfg))
 		}
